@@ -6,12 +6,14 @@ EXTENDS Aggregator, AggAlphabet
 Cmds == <<
   C("cpp_class", <<"@">>), C("cpp_class", <<"@", "Base1", "Base2">>), C("cpp_end_class", <<>>),
   C("cpp_attr", <<"C", "@">>), C("cpp_attr", <<"C", "@", "42">>),
-  C("cpp_member", <<"@", "C">>), C("cpp_member", <<"dupm", "C", "int">>), C("cpp_member", <<"@", "C", "int", "args">>), C("cpp_member", <<"@", "C", "int", "str">>),
+  C("cpp_member", <<"@", "C">>), C("cpp_member", <<"dupm", "C", "int">>), C("cpp_member", <<"@", "C", "int", "args">>),
+  Trig(C("cpp_member", <<"@", "C", "int", "str">>)),      \* its doccomment (if any) contains the kwargs trigger string: no effect on members
   C("cpp_constructor", <<"@", "C", "int">>),
   C("function", <<"${@}", "_p_self">>), C("function", <<"${@}", "self", "_p_a", "b">>),
   C("macro", <<"${@}", "self", "a">>),
   C("endfunction", <<>>), C("endmacro", <<>>),
-  C("other", <<"hi">>)
+  C("other", <<"hi">>),
+  C("cmake_parse_arguments", <<"x", "\"\"", "\"\"", "\"\"">>)      \* in a member's implementation: no effect on the member
 >>
 Pre == <<>>
 MCPats == [f |-> FALSE, m |-> FALSE, x |-> TRUE]
